@@ -505,6 +505,21 @@ def gen_object_members(rng):
     return samples
 
 
+def gen_identical_siblings(rng):
+    """distinct sibling objects with identical field names AND identical field types (numbers, booleans, long strings):
+    equal as metadata, but different models unless the merge policy joins them (a number-only policy does not)"""
+    ks = rng.sample(WORDS, k=rng.randint(2, 3))
+    def shape(seed):
+        vals = [1.5 + seed, seed, bool(seed % 2), "x" * 25 + str(seed)]
+        return {k: vals[i % len(vals)] for i, k in enumerate(ks)}
+    out = {"origin": shape(1), "destination": shape(2), "n": 1}
+    if rng.random() < 0.5:
+        out["fare"] = {"net": shape(3), "gross": shape(4), "cur": "EUR"}
+    if rng.random() < 0.3:
+        out["stops"] = [{"at": shape(5)}, {"at": shape(6)}]
+    return out
+
+
 def gen_shared_samples(rng):
     return [gen_shared_shape(rng) for _ in range(rng.randint(1, 2))]
 
